@@ -27,12 +27,12 @@ import tempfile
 from fractions import Fraction as F
 from pathlib import Path
 
-from . import regk, t1_defs
-from .common import REPO, coq_bool, coq_list, coq_str, coq_uc
+from . import t1_defs
+from .common import REPO, coq_bool, coq_list
 
 logging.getLogger("pint").setLevel(logging.ERROR)
 
-HEADER = ("From PintV Require Import Model.UC Model.Eval Model.Registry Model.UCRun Model.Names Model.NamesRun "
+HEADER = ("From Coq Require Import Uint63.\nFrom PintV Require Import Model.UC Model.Eval Model.Registry Model.UCRun Model.Names Model.NamesRun "
           "Gen.DefaultDefs Gen.DefaultReg.\nOpen Scope string_scope.\n"
           "Definition R0 : nreg := nreg_of default_raw.\n"
           "Definition ok (k : ncase) : bool := c08_ok R0 k.\n")
@@ -62,6 +62,7 @@ class Tables:
         self.pkeys = {"": ""}                 # spelling -> canonical name, in insertion order
         self.pdef = {"": ("", F(1))}          # canonical name -> (symbol, value)
         self.units = {}                        # spelling -> UDef
+        self.redefined = []                    # spellings defined twice (pint logs "Redefining …")
         refs = []
         for d in parsed["defs"]:
             k = d["kind"]
@@ -72,6 +73,8 @@ class Tables:
                 aliases = [a for a in rest[1:] if a not in ("", "_")]
                 self.pdef[name] = (sym if sym else name, _num(d["value"]))
                 for key in [name] + ([sym] if sym else []) + aliases:
+                    if key in self.pkeys:
+                        self.redefined.append(key + "-")
                     self.pkeys[key] = name
             elif k == "unit":
                 name, rest = d["fields"][0], d["fields"][1:]
@@ -85,16 +88,22 @@ class Tables:
                     mult, offset = False, True
                 ud = UDef(name, sym if sym else name, mult)
                 for key in [name] + ([sym] if sym else []) + aliases:
+                    if key in self.units:
+                        self.redefined.append(key)
                     self.units[key] = ud
                 refs += [t for kk, t in d["rhs"] if kk == "name" and not t.startswith("[")]
                 if offset:
                     dd = UDef("delta_" + name, "Δ" + sym if sym else "delta_" + name, True)
                     for key in (["delta_" + name] + (["Δ" + sym] if sym else []) + ["Δ" + a for a in aliases]
                                 + ["delta_" + a for a in aliases]):
+                        if key in self.units:
+                            self.redefined.append(key)
                         self.units[key] = dd
             elif k == "alias":
                 ud = self.units[d["name"]]
                 for a in d["aliases"]:
+                    if a in self.units:
+                        self.redefined.append(a)
                     self.units[a] = ud
         self.by_first = {}
         for i, pk in enumerate(self.pkeys):
@@ -194,11 +203,16 @@ class Impl:
         self.u = pint.UnitRegistry(*args, non_int_type=F, cache_folder=None, **kw)
         self.table = self.u._units.maps[0] if hasattr(self.u._units, "maps") else self.u._units
         self.snap = dict(self.table)
+        self.lazy = getattr(self.u, "_lazy_units", None)       # present once F3 is repaired as proposed
+        self.lazy_snap = set(self.lazy) if self.lazy is not None else None
 
     def reset(self):
         if len(self.table) != len(self.snap) or any(self.table[k] is not v for k, v in self.snap.items()):
             self.table.clear()
             self.table.update(self.snap)
+            if self.lazy is not None:
+                self.lazy.clear()
+                self.lazy.update(self.lazy_snap)
         self.u._cache.parse_unit.clear()
 
     def added(self):
@@ -230,12 +244,31 @@ class Impl:
 
 
 # ------------------------------------------------------------------ Coq terms
+def cstr(s):
+    """compact string literal: NamesRun.s_ applied to 63-bit integers of seven bytes each (Coq 8.16
+    elaborates "…" literals character by character; this is ~5x cheaper)"""
+    b = s.encode("utf-8")
+    if not b:
+        return "(s_ [])"
+    return "(s_ [" + "; ".join(str(int.from_bytes(b[i:i + 7], "little")) for i in range(0, len(b), 7)) + "]%uint63)"
+
+
+def c_uc(d):
+    from .common import coq_q
+    return "(mkuc [" + "; ".join(f"({cstr(k)}, {coq_q(v)})" for k, v in sorted(d.items())) + "])"
+
+
+def c_toks(toks):
+    m = {"num": "TNum", "name": "TName", "op": "TOp"}
+    return coq_list([f"{m[k]} {cstr(t)}" for k, t in toks] + ["TEnd"])
+
+
 def coq_ob(b):
     return "None" if b is None else f"(Some {coq_bool(b)})"
 
 
 def coq_pairs(l):
-    return coq_list(["(" + coq_str(p) + ", " + coq_str(u) + ")" for p, u in l])
+    return coq_list(["(" + cstr(p) + ", " + cstr(u) + ")" for p, u in l])
 
 
 def coq_ures(o, f):
@@ -260,26 +293,30 @@ IDENT = re.compile(rf"[{LETTERS}][{LETTERS}0-9]*")
 def coq_op(op, o):
     api = op[0]
     if api == "parse":
-        return f"OParse {coq_ob(op[1])} {coq_str(op[2])} {coq_pairs(o[1])}"
+        return f"OParse {coq_ob(op[1])} {cstr(op[2])} {coq_pairs(o[1])}"
     if api == "name":
-        return f"OName {coq_ob(op[1])} {coq_str(op[2])} {coq_ures(o, coq_str)}"
+        return f"OName {coq_ob(op[1])} {cstr(op[2])} {coq_ures(o, cstr)}"
     if api == "symbol":
-        return f"OSymbol {coq_ob(op[1])} {coq_str(op[2])} {coq_ures(o, coq_str)}"
+        return f"OSymbol {coq_ob(op[1])} {cstr(op[2])} {coq_ures(o, cstr)}"
     if api == "all":
-        return f"OAll {coq_str(op[2])} {coq_pairs(o[0][1])} {coq_ures(o[1], coq_str)} {coq_ures(o[2], coq_str)}"
-    toks = t1_defs.coq_toks(lex_ok(op[1]) or [])
+        return f"OAll {cstr(op[2])} {coq_pairs(o[0][1])} {coq_ures(o[1], cstr)} {coq_ures(o[2], cstr)}"
+    toks = c_toks(lex_ok(op[1]) or [])
     if api == "units":
-        return (f"OUnits {coq_str(op[1])} {toks} {coq_ob(op[2])} {coq_ob(op[3])} "
-                f"{coq_ures(o, lambda v: coq_uc(dict(v)))}")
+        return (f"OUnits {cstr(op[1])} {toks} {coq_ob(op[2])} {coq_ob(op[3])} "
+                f"{coq_ures(o, lambda v: c_uc(dict(v)))}")
     if api == "getattr":
-        return f"OGetattr {coq_str(op[1])} {toks} {coq_ures(o, lambda v: coq_uc(dict(v)))}"
+        return f"OGetattr {cstr(op[1])} {toks} {coq_ures(o, lambda v: c_uc(dict(v)))}"
     if api == "in":
-        return f"OIn {coq_str(op[1])} {toks} {coq_ures(o, coq_bool)}"
+        return f"OIn {cstr(op[1])} {toks} {coq_ures(o, coq_bool)}"
     raise ValueError(api)
 
 
-def coq_cfg(case=True, delta=True, symexact=False):
-    return f"(Cfg {coq_bool(case)} {coq_bool(delta)} {coq_bool(symexact)})"
+SWITCHES = {"symexact": False, "lazyfix": False}     # defect switches, selected by run() from witnesses
+
+
+def coq_cfg(case=True, delta=True, symexact=None):
+    sx = SWITCHES["symexact"] if symexact is None else symexact
+    return f"(Cfg {coq_bool(case)} {coq_bool(delta)} {coq_bool(sx)} {coq_bool(SWITCHES['lazyfix'])})"
 
 
 # the model's lower-casing (Model/Names.v [lower]); strings on which Python disagrees are not asked
@@ -476,10 +513,15 @@ def run(ck):
             add_case("NFresh", cfg, chunk, {label: [op_strings(op)[0] for op, _ in chunk][:6]})
 
     # ---- the tables agree with what the registry holds (a tie, not an oracle)
+    if T.redefined:
+        ck.assumptions.append(f"the definition files define these spellings twice (last definition wins): {T.redefined[:8]}")
     if set(fresh.snap) != set(T.with_lazy):
         d1, d2 = sorted(set(fresh.snap) - set(T.with_lazy))[:5], sorted(set(T.with_lazy) - set(fresh.snap))[:5]
         fails.add("tables:spellings", f"unit spellings of the registry differ from the definition files: only in pint "
                   f"{d1}, only in files {d2}", {"only_pint": d1, "only_files": d2})
+    if list(getattr(fresh.u, "_suffixes", {}).items()) != [("", ""), ("s", "")]:
+        fails.add("tables:suffixes", "the registry's suffix table is not {'': '', 's': ''} (Model/Registry.v [suffixes])",
+                  {"pint": list(getattr(fresh.u, "_suffixes", {}).items())})
     if list(fresh.u._prefixes) != list(T.pkeys):
         fails.add("tables:prefixes", "prefix spellings (or their order) differ from the definition files",
                   {"pint": list(fresh.u._prefixes)[:80], "files": list(T.pkeys)[:80]})
@@ -489,7 +531,22 @@ def run(ck):
                 for s, ud in T.units.items()}
     witness = sorted(s for s, l in shadowed.items() if l)
     symexact = bool(witness) and fresh.call(("symbol", None, witness[0])) == ("ok", T.units[witness[0]].symbol)
-    ck.extra["defect_switches"] = {"get_symbol_exact_first (F45 repaired)": symexact, "witnesses": witness[:4]}
+    fresh.reset()
+    # defect switch (F3 …): are lazily registered names spellings?  witness: look p2+u up, then p1+p2+u
+    lazyfix, lw = False, None
+    for un in sorted({d.name for d in T.units.values() if d.mult})[:40]:
+        s2 = "kilo" + un if "kilo" in T.pdef else None
+        s1 = "milli" + s2 if s2 and "milli" in T.pdef else None
+        if s1 and not T.candidates(s1) and s1 not in T.with_lazy and s2 not in T.with_lazy and T.candidates(s2)[:1] == [("kilo", un)]:
+            before = fresh.call(("name", None, s1))
+            fresh.call(("name", None, s2))
+            after = fresh.call(("name", None, s1))
+            fresh.reset()
+            lazyfix, lw = (before == after == ("err", "KUndefined")), [s2, s1]
+            break
+    SWITCHES["symexact"], SWITCHES["lazyfix"] = symexact, lazyfix
+    ck.extra["defect_switches"] = {"get_symbol_exact_first (F45 repaired)": symexact, "witnesses": witness[:4],
+                                   "lazy_names_hidden_from_parsing (F3/F46/F47/F48 repaired)": lazyfix, "witness": lw}
     CFG = coq_cfg(True, True, symexact)
 
     pk_all = [p for p in T.pkeys if p]
@@ -513,7 +570,11 @@ def run(ck):
     else:
         strings = sorted({rng.choice(pk_all) + rng.choice(sp_all) + rng.choice(["", "s"]) for _ in range(45000)})
         rng.shuffle(strings)
-    n_model = len(strings) if thorough else 10000
+        # every string of the cross product that the tables read in two or more ways (cheap: no pint involved)
+        ambiguous = [s for s in (p + u + x for p in pk_all for u in sp_all for x in ("", "s"))
+                     if len(T.candidates(s, lazy=True)) >= 2]
+        strings = strings[:10000] + ambiguous + strings[10000:]
+    n_model = len(strings) if thorough else 10000 + len(ambiguous)
     strings += sp_all + [u + "s" for u in sp_all]          # the exact spellings and their plurals
     seen, multi, obs3 = set(), [], {}
     for s in strings:
@@ -925,7 +986,7 @@ def generated_registries(ck, rng, fails, symexact, count):
     tmp = Path(tempfile.mkdtemp(prefix="c08gen"))
     try:
         made = attempts = 0
-        while made < count and attempts < count * 6:
+        while made < count and attempts < count * 12:
             attempts += 1
             text, pnames, units = gen_definitions(rng)
             path = tmp / f"g{attempts}.txt"
@@ -934,6 +995,9 @@ def generated_registries(ck, rng, fails, symexact, count):
                 impl = Impl(filename=path)
                 T = Tables(path)
             except Exception:  # noqa: BLE001 - a file pint refuses is not a C08 input
+                continue
+            if T.redefined:
+                ck.count("generated registries skipped (a spelling is defined twice)")
                 continue
             if set(impl.snap) != set(T.with_lazy) or list(impl.u._prefixes) != list(T.pkeys):
                 ck.count("generated registries skipped (tables differ)")
@@ -966,6 +1030,7 @@ def generated_registries(ck, rng, fails, symexact, count):
                 cases.append(f"NFresh {cfg} {coq_list([coq_op(op, o) for op, o in ops])}")
                 descs.append({"generated registry": attempts, "strings": pool[i:i + 8]})
             nhist = 0
+            ref = Impl(filename=path)            # answers of the registry as constructed
             for _ in range(6):
                 impl.reset()
                 terms = []
@@ -975,12 +1040,8 @@ def generated_registries(ck, rng, fails, symexact, count):
                     kind = history_kind(T, impl, [s])
                     o = impl.call(op)
                     terms.append(coq_op(op, o))
-                    keep = dict(impl.table)
-                    impl.reset()
-                    of = impl.call(op)
-                    impl.reset()
-                    impl.table.clear()
-                    impl.table.update(keep)
+                    of = ref.call(op)
+                    ref.reset()
                     ck.case(key=("gen-seq", attempts, op))
                     if o != of:
                         nhist += 1
